@@ -378,6 +378,19 @@ theorem C05_alloc_have_guard (s : PeerState) (ae : AddEnv) (i : Nat) (hinfo : s.
   have h : ¬ i < maxPiecesPre := by omega
   simp [handleMessage, run, handleMessageM, handleWire, hinfo, hi, bind, PM.bind, PeerMsg.get, PeerMsg.failTag]
 
+/-- C05_fast_guard — the repaired AllowedFast handler (fix 02): an index that cannot be a
+    piece index (≥ 8·2^20 before the metadata is known) is refused and never enters the
+    allowed-fast set the torrent's idle piece picking walks; every index the set holds was
+    below that bound, and once the metadata is known a new entry is below the piece count
+    (guard `i ≥ numPieces → ErrRange` in the model, diffed against the code). -/
+theorem C05_fast_guard (s : PeerState) (ae : AddEnv) (i : Nat) (hinfo : s.info = false)
+    (hi : maxPiecesPre ≤ i) :
+    let r := handleMessage s (.wire (.allowedFast i)) ae
+    (∃ e, r.res = .err e) ∧ r.s.fast = s.fast ∧ r.outs = [] := by
+  by_cases hf : s.canFast = true
+  · simp [handleMessage, run, handleMessageM, handleWire, hinfo, hi, hf, bind, PM.bind, PeerMsg.get, PeerMsg.failTag]
+  · simp [handleMessage, run, handleMessageM, handleWire, hf, bind, PM.bind, PeerMsg.get, PeerMsg.failTag]
+
 /-- C05_alloc_kernel — the two index-driven allocations: the peer bitmap grows to at most
     `i/8+1` bytes and the availability vector to `2·(i+1)` bytes for an accepted index `i`
     (so at most 1 MiB + 16 MiB before the metadata is known, `N/8 + 2N` after). -/
